@@ -76,7 +76,8 @@ def handle (line : String) : String :=
           | some (.bad c v) => s!"BAD ch={chName c} op'={op'} model {showPx v}"
           | some mv =>
             let tag := match mv with | .ok => "ok" | .okPerturbed => "okp" | _ => "okh"
-            match judge tol dfm rv (Pixman.Spec.PdfBlend.specPixel sqrtQ op ca) hull spx mpx dpx with
+            match judge tol dfm rv (Pixman.Spec.PdfBlend.specPixel sqrtQ op ca) hull spx mpx dpx
+                (fun s' m' d' => Pixman.Spec.PdfBlend.specPixel sqrtQ op ca s' m' d' false) with
             | some (.bad c w) => s!"SPEC ch={chName c} spec {showPx w}"
             | _ => tag        -- accepted, or no claim (operands not premultiplied / outside the Spec)
         | _, _, _ => "bad-request"
